@@ -71,6 +71,10 @@ class Scheduler:
         if ev and ev[0] == "acq":
             lk = ev[1]
             return lk.owner is None or lk.owner == t
+        if ev and ev[0] == "join":          # Thread.join(): blocked until that thread has finished
+            return self.finished[ev[1]]
+        if ev and ev[0] == "waitdone":      # Event.wait() that can only return once the flag is set
+            return ev[1].flag
         return True
 
     def runnable(self):
@@ -228,3 +232,42 @@ class SchedFile:
 
     def isatty(self):
         return True
+
+
+class SchedEvent:
+    """stands in for _RefreshThread.done (threading.Event): set() and wait() are yield points.
+    wait() returns the flag at the moment it is scheduled (the timeout has "elapsed"); after
+    `max_false` unsuccessful waits it only returns once the flag is set, so runs are finite."""
+
+    def __init__(self, sched, max_false=2):
+        self.sched = sched
+        self.flag = False
+        self.falses = 0
+        self.max_false = max_false
+
+    def set(self):
+        self.sched.park(("setdone",))
+        self.sched.log(5)
+        self.flag = True
+
+    def is_set(self):
+        return self.flag
+
+    def wait(self, timeout=None):
+        if self.falses >= self.max_false:
+            self.sched.park(("waitdone", self))
+        else:
+            self.sched.park(("wait",))
+        v = self.flag
+        if not v:
+            self.falses += 1
+        self.sched.log(6, 1 if v else 0)
+        return v
+
+
+def sched_join(sched, target):
+    """Thread.join() of the managed thread `target`"""
+    def join(timeout=None):
+        sched.park(("join", target))
+        sched.log(7)
+    return join
